@@ -2,7 +2,8 @@
    Statements only; proofs live in Raft/QuorumProofs.v and Raft/RaftProofs*.v. *)
 Require Import List Arith Bool Lia.
 Require Import Raft.Quorum Raft.QuorumProofs Raft.RaftModel Raft.RaftSys Raft.RaftLog Raft.RaftInv
-               Raft.RaftInvMain Raft.RaftRefine Raft.RaftSafety Raft.RaftStepProps Raft.RaftSafetySteps Raft.RaftCheck.
+               Raft.RaftInvBase Raft.RaftInvMain Raft.RaftRefine Raft.RaftSafety Raft.RaftStepProps Raft.RaftSafetySteps Raft.RaftCheck
+               Raft.RaftCC Raft.RaftCCCheck Raft.RaftCCRefine Raft.RaftCCSafety Raft.RaftCCQuorum.
 Import ListNotations.
 
 (* ------------------------------------------------------------------ quorum layer
@@ -133,10 +134,10 @@ Print Assumptions C15_commit_current_term_only.
    acknowledged in the term t0 in which the leader of t0 created entry k0 (micro level:
    ga x t0 = what x acknowledged in term t0, LL t0 = the log of the leader of t0) *)
 Theorem C15_commit_justified : forall c0 c1, (c0 <> [] \/ c1 <> []) ->
-  forall s, mreachable c0 c1 s ->
+  forall s, mreachable [(c0, c1)] s ->
   forall y, n_commit (nodes s y) = 0 \/
     exists t0 k0, t0 <= n_term (nodes s y) /\ n_commit (nodes s y) <= k0 /\
-      term_at (LL s t0) k0 = t0 /\ Qr c0 c1 (ackedp s t0 k0) /\
+      term_at (LL s t0) k0 = t0 /\ Qr [(c0, c1)] (ackedp s t0 k0) /\
       firstn (n_commit (nodes s y)) (n_log (nodes s y)) = firstn (n_commit (nodes s y)) (LL s t0).
 Proof. exact commit_justified. Qed.
 Print Assumptions C15_commit_justified.
@@ -144,8 +145,8 @@ Print Assumptions C15_commit_justified.
 (* Leader completeness.  Ghost form: an entry committed in term t is in the log of the
    leader of every later term. *)
 Theorem C15_leader_completeness_ghost : forall c0 c1, (c0 <> [] \/ c1 <> []) ->
-  forall s, mreachable c0 c1 s ->
-  forall t k t3, committed_at c0 c1 s t k -> t < t3 -> LL s t3 <> [] ->
+  forall s, mreachable [(c0, c1)] s ->
+  forall t k t3, committed_at [(c0, c1)] s t k -> t < t3 -> LL s t3 <> [] ->
     k <= length (LL s t3) /\ firstn k (LL s t3) = firstn k (LL s t).
 Proof. exact leader_completeness_ghost. Qed.
 Print Assumptions C15_leader_completeness_ghost.
@@ -189,15 +190,18 @@ Theorem C15_committed_forever : forall c0 c1, (c0 <> [] \/ c1 <> []) ->
 Proof. exact committed_forever. Qed.
 Print Assumptions C15_committed_forever.
 
-(* the inductive invariant behind all of the above (Raft/RaftInv.v, 32 components) *)
-Theorem C15_invariant : forall c0 c1, (c0 <> [] \/ c1 <> []) ->
-  forall s, mreachable c0 c1 s -> Inv c0 c1 s.
+(* the inductive invariant behind all of the above (Raft/RaftInv.v, 32 components).  It is proved
+   for a micro-step system in which every decision (vote tally, commit index) may be taken with
+   ANY configuration of a family F whose quorums pairwise intersect; fixed membership is the
+   family of one non-empty configuration. *)
+Theorem C15_invariant : forall F, inter_family F ->
+  forall s, mreachable F s -> Inv F s.
 Proof. exact mreachable_inv. Qed.
 Print Assumptions C15_invariant.
 
 (* every run of the executable system is a run of the micro-step system *)
-Theorem C15_refinement : forall c0 c1 x, xreachable c0 c1 x ->
-  exists s, mreachable c0 c1 s /\ (forall y, nodes s y = x_nodes x y) /\ msgs s = x_msgs x.
+Theorem C15_refinement : forall c0 c1 F, In (c0, c1) F -> forall x, xreachable c0 c1 x ->
+  exists s, mreachable F s /\ (forall y, nodes s y = x_nodes x y) /\ msgs s = x_msgs x.
 Proof. exact xreachable_sim. Qed.
 Print Assumptions C15_refinement.
 
@@ -261,3 +265,171 @@ Proof.
   split; [apply (run_reachable [1; 2; 3] [] (firstn 5 ex_trace) x_init x); [apply XR_init|exact Hrun]|].
   split; [eapply model_step_sound; exact Hstep|exact Hrest].
 Qed.
+
+(* ------------------------------------------------------------------ membership changes
+   Raft/RaftCC.v is an executable model of raft WITH membership changes as etcd/raft implements
+   them (conf-change entries in the log, at most one pending through pendingConfIndex, a
+   configuration applied when its entry is applied — i.e. once committed, by the application
+   calling ApplyConfChange while it processes the Ready, as raftexample does —, joint
+   configurations with automatic leave, every decision taken with the node's current
+   configuration).  [cxstep boot page1] is its transition relation (same network and events as
+   xstep).  It is tied to the code by trace validation (check_step_cc, configurations compared).
+
+   FULL STATEMENTS (NOT PROVED).  For every well-formed boot configuration and every
+   [cxreachable boot page1 x]:
+     cc_election_safety        two leaders of one term are the same node
+     cc_log_matching
+     cc_state_machine_safety   committed prefixes of any two nodes are equal
+     cc_leader_completeness    a leader holds what any node of a term <= its own has committed
+     cc_committed_never_removed
+   i.e. the theorems below without the restriction to a family F.
+
+   PROVED (the _partial theorems below): the same statements for every run all of whose
+   configurations lie in a family F whose quorums pairwise intersect ([cxreachableF F]), and
+   (C15_conf_step_quorums_intersect) a configuration together with its successor under ONE
+   change — add a voter, remove a voter, enter a joint configuration, leave it — is such a
+   family.  So each single step of a membership change, taken alone, is proved safe, for any
+   cluster size and any schedule.
+
+   MISSING for the full statements: the composition along a chain C_0, C_1, C_2, ... of changes,
+   where non-adjacent configurations need not intersect.  The argument needs (a) the invariant
+   that no log ever holds two uncommitted configuration changes (from pendingConfIndex, from
+   becomeLeader's pendingConfIndex = lastIndex, and from the commit index carried by MsgApp), so
+   that a node's configuration is at most one step behind the last change in its own log;
+   (b) C15_conf_step_quorums_intersect for adjacent configurations; (c) a case analysis of the
+   distance between the configuration of a candidate and the configuration under which an entry
+   was committed, inside the leader-completeness induction (a candidate two or more steps behind
+   would have to hold two uncommitted changes, contradicting (a); one two or more steps ahead
+   already holds the entry by log matching).  The invariant of Raft/RaftInv.v would have to carry
+   the configuration with every recorded quorum (votes of a term, acknowledgements of an entry,
+   "never" quorums).  Not done.  Until then schedules with arbitrary chains of changes are
+   validated against the model and monitored (no violation seen), not proved. *)
+
+Theorem C15_conf_step_quorums_intersect : forall c op c', wfc c -> apply_cc c op = Some c' ->
+  wfc c' /\ inter_family [(c_in c, c_out c); (c_in c', c_out c')].
+Proof. intros c op c' H1 H2. split; [exact (conf_step_wf c op c' H1 H2)|exact (conf_step_inter c op c' H1 H2)]. Qed.
+Print Assumptions C15_conf_step_quorums_intersect.
+
+(* the hypothesis "the configuration is not empty" of the fixed-membership theorems is implied by
+   a valid bootstrap: whatever conf-change entries a log holds, the configuration derived from a
+   well-formed boot configuration is well formed (etcd refuses to remove the last voter) *)
+Theorem C15_configuration_never_empty : forall boot l, wfc boot ->
+  c_in (cfg_of boot l) <> [] \/ c_out (cfg_of boot l) <> [].
+Proof. exact cfg_of_nonempty. Qed.
+Print Assumptions C15_configuration_never_empty.
+
+Theorem C15_check_step_cc_sound : forall boot page1 x id ev obs_out obs obs_cfg x',
+  check_step_cc boot page1 x id ev obs_out obs obs_cfg = CVOk x' -> cxstep boot page1 x x'.
+Proof. exact check_step_cc_sound. Qed.
+Print Assumptions C15_check_step_cc_sound.
+
+(* every run with membership changes whose configurations stay in F is a run of the micro-step
+   system with family F *)
+Theorem C15_cc_refinement_partial : forall F, inter_family F -> forall boot page1 x,
+  cxreachableF F boot page1 x ->
+  exists s, mreachable F s /\ (forall y, nodes s y = fst (cx_nodes x y)) /\ msgs s = cx_msgs x.
+Proof. exact cc_sim. Qed.
+Print Assumptions C15_cc_refinement_partial.
+
+Theorem C15_cc_election_safety_partial : forall F, inter_family F -> forall boot page1 x,
+  cxreachableF F boot page1 x ->
+  forall a b, n_role (fst (cx_nodes x a)) = Leader -> n_role (fst (cx_nodes x b)) = Leader ->
+    n_term (fst (cx_nodes x a)) = n_term (fst (cx_nodes x b)) -> a = b.
+Proof. exact cc_election_safety. Qed.
+Print Assumptions C15_cc_election_safety_partial.
+
+Theorem C15_cc_log_matching_partial : forall F, inter_family F -> forall boot page1 x,
+  cxreachableF F boot page1 x ->
+  forall a b i, 1 <= i -> i <= length (n_log (fst (cx_nodes x a))) -> i <= length (n_log (fst (cx_nodes x b))) ->
+    term_at (n_log (fst (cx_nodes x a))) i = term_at (n_log (fst (cx_nodes x b))) i ->
+    firstn i (n_log (fst (cx_nodes x a))) = firstn i (n_log (fst (cx_nodes x b))).
+Proof. exact cc_log_matching. Qed.
+Print Assumptions C15_cc_log_matching_partial.
+
+Theorem C15_cc_state_machine_safety_partial : forall F, inter_family F -> forall boot page1 x,
+  cxreachableF F boot page1 x ->
+  forall a b i, i <= n_commit (fst (cx_nodes x a)) -> i <= n_commit (fst (cx_nodes x b)) ->
+    i <= length (n_log (fst (cx_nodes x a))) /\ i <= length (n_log (fst (cx_nodes x b))) /\
+    firstn i (n_log (fst (cx_nodes x a))) = firstn i (n_log (fst (cx_nodes x b))).
+Proof. exact cc_state_machine_safety. Qed.
+Print Assumptions C15_cc_state_machine_safety_partial.
+
+Theorem C15_cc_leader_completeness_partial : forall F, inter_family F -> forall boot page1 x,
+  cxreachableF F boot page1 x ->
+  forall l y, n_role (fst (cx_nodes x l)) = Leader -> n_term (fst (cx_nodes x y)) <= n_term (fst (cx_nodes x l)) ->
+    n_commit (fst (cx_nodes x y)) <= length (n_log (fst (cx_nodes x l))) /\
+    firstn (n_commit (fst (cx_nodes x y))) (n_log (fst (cx_nodes x l)))
+      = firstn (n_commit (fst (cx_nodes x y))) (n_log (fst (cx_nodes x y))).
+Proof. exact cc_leader_completeness. Qed.
+Print Assumptions C15_cc_leader_completeness_partial.
+
+Theorem C15_cc_committed_never_removed_partial : forall F, inter_family F -> forall boot page1 x x',
+  cxreachableF F boot page1 x -> cxstep boot page1 x x' ->
+  forall y, firstn (n_commit (fst (cx_nodes x y))) (n_log (fst (cx_nodes x' y)))
+            = firstn (n_commit (fst (cx_nodes x y))) (n_log (fst (cx_nodes x y))).
+Proof. exact cc_committed_prefix_kept. Qed.
+Print Assumptions C15_cc_committed_never_removed_partial.
+
+(* FULL (no restriction on the configurations): in every step of the membership-change system
+   each node's persisted term and commit index never regress and its vote changes only with a
+   term increase or from none *)
+Theorem C15_cc_hardstate_monotone : forall boot page1 x x', cxstep boot page1 x x' ->
+  forall y, n_term (fst (cx_nodes x y)) <= n_term (fst (cx_nodes x' y)) /\
+            n_commit (fst (cx_nodes x y)) <= n_commit (fst (cx_nodes x' y)) /\
+            (n_term (fst (cx_nodes x' y)) = n_term (fst (cx_nodes x y)) ->
+             n_vote (fst (cx_nodes x' y)) = n_vote (fst (cx_nodes x y)) \/ n_vote (fst (cx_nodes x y)) = None).
+Proof.
+  intros boot page1 x x' H y. destruct H as [id ev extra _ _]. cbn [cx_nodes].
+  destruct (Nat.eq_dec y id) as [->|Hy]; [rewrite RaftInvBase.upd_same|rewrite RaftInvBase.upd_other by exact Hy; split; [lia|split; [lia|intros _; left; reflexivity]]].
+  destruct (cx_nodes x id) as [n pend]. destruct (exec_cc_hs_mono boot page1 id ev n pend) as (H1 & H2 & H3).
+  cbn [fst]. split; [exact H1|split; [exact H3|exact H2]].
+Qed.
+Print Assumptions C15_cc_hardstate_monotone.
+
+(* the instance "one membership change": while the configurations of a run are the boot
+   configuration c or its successor c' under one change, the run is safe *)
+Theorem C15_cc_one_change_safe_partial : forall c op c' page1, wfc c -> apply_cc c op = Some c' ->
+  forall x, cxreachableF [(c_in c, c_out c); (c_in c', c_out c')] c page1 x ->
+  forall a b i, i <= n_commit (fst (cx_nodes x a)) -> i <= n_commit (fst (cx_nodes x b)) ->
+    firstn i (n_log (fst (cx_nodes x a))) = firstn i (n_log (fst (cx_nodes x b))).
+Proof.
+  intros c op c' page1 Hw Ha x Hx a b i H1 H2.
+  apply (cc_state_machine_safety _ (conf_step_inter c op c' Hw Ha) c page1 x Hx a b i H1 H2).
+Qed.
+Print Assumptions C15_cc_one_change_safe_partial.
+
+(* non-vacuity of the membership-change model: in a 3-voter cluster node 1 is elected, proposes
+   "add voter 4" (payload 104), replicates it to node 2, commits it and from then on decides with
+   the configuration {1,2,3,4} *)
+Definition ccx_boot : conf := mkC [1; 2; 3] [] false.
+Definition ccx_app : msg := mkMsg MsgApp 1 2 1 0 0 [(1, 0); (1, 104)] 0 false.
+Definition ccx_ack : msg := mkMsg MsgAppResp 2 1 1 0 2 [] 0 false.
+Definition ccx_trace : list (nat * event * list msg) :=
+  [ (1, EvCampaign, [ex_vote 2; ex_vote 3]);
+    (2, EvRecv (ex_vote 2), []);
+    (1, EvRecv ex_grant, []);
+    (1, EvPropose 104, [ccx_app]);
+    (2, EvRecv ccx_app, []);
+    (1, EvRecv ccx_ack, []) ].
+
+Example C15_ex_cc_run : exists x,
+  cxreachable ccx_boot false x /\
+  n_role (fst (cx_nodes x 1)) = Leader /\ n_commit (fst (cx_nodes x 1)) = 2 /\
+  n_log (fst (cx_nodes x 1)) = [(1, 0); (1, 104)] /\
+  node_cfg ccx_boot (fst (cx_nodes x 1)) = mkC [1; 2; 3; 4] [] false /\
+  node_cfg ccx_boot (fst (cx_nodes x 2)) = ccx_boot.
+Proof.
+  assert (H : exists x, run_cc ccx_boot false cx_init ccx_trace = Some x /\
+    n_role (fst (cx_nodes x 1)) = Leader /\ n_commit (fst (cx_nodes x 1)) = 2 /\
+    n_log (fst (cx_nodes x 1)) = [(1, 0); (1, 104)] /\
+    node_cfg ccx_boot (fst (cx_nodes x 1)) = mkC [1; 2; 3; 4] [] false /\
+    node_cfg ccx_boot (fst (cx_nodes x 2)) = ccx_boot).
+  { eexists. split; [vm_compute; reflexivity|]. vm_compute. repeat split. }
+  destruct H as (x & Hrun & Hrest). exists x. split; [|exact Hrest].
+  apply (run_cc_reachable ccx_boot false ccx_trace cx_init x); [apply CXR_init|exact Hrun].
+Qed.
+
+Example C15_ex_conf_step : apply_cc ccx_boot (CcJoint 4 3) = Some (mkC [1; 2; 4] [1; 2; 3] true)
+  /\ apply_cc (mkC [1; 2; 4] [1; 2; 3] true) CcLeave = Some (mkC [1; 2; 4] [] false)
+  /\ apply_cc ccx_boot (CcRemove 2) = Some (mkC [1; 3] [] false).
+Proof. repeat split. Qed.
